@@ -114,3 +114,6 @@ def nontrivial(line):
 
 def classify(line, what):
     return "c07-" + ("zero-frames" if "zero frames" in what else line.split()[0][0])
+
+
+norm_model = norm_impl
